@@ -964,13 +964,19 @@ class Interp:
             if self.data_pos >= len(self.data):
                 raise QError('OUT_OF_DATA')
             item = self.data[self.data_pos]
-            cell = self.resolve_for_read(lv)
-            if cell.t == '$':
+            # the item is fetched and converted before the target's
+            # subscripts are evaluated (order unspecified in QBASIC; this is
+            # the order qbee uses, so no alarm is raised about it)
+            t = lv.t
+            if t == '$':
                 v = '' if item is None else item[1]
             else:
-                v = read_number(item, cell.t)
+                v = read_number(item, t)
             self.data_pos += 1
-            self.events.append(('READ', cell.t, v))
+            self.events.append(('READ', t, v))
+            cell = self.resolve_for_read(lv)
+            if cell.t != t:
+                raise Unsupported('READ target type')
             cell.v = v
             cell.assigned = True
 
